@@ -61,7 +61,7 @@ def properties_of(v, job):
     """Which properties a recorded violation belongs to."""
     rule = v["rule"]
     out = set()
-    kind = root_kind(job["root"]) if job["kind"] == "entry" else "scanner"
+    kind = root_kind(job["root"]) if job["kind"] == "entry" else job["kind"]
     if rule.startswith("obligation:") or rule in SAFETY_RULES or rule.startswith("deref-of-") or rule.startswith("use-of-uninit") or rule.startswith("use-of-top"):
         out.add("C01")
     if rule == "obligation:from_utf8_unchecked-ascii":
